@@ -180,8 +180,8 @@ def _standin_chunk(args):
     return n, accepted, fails, evals
 
 
-def lexer_standin(contracts, tier, jobs=16):
-    texts = list(lexer_corpus(tier))
+def lexer_standin(contracts, tier, jobs=16, only=None):
+    texts = [t for t in lexer_corpus(tier) if only is None or only(t)]
     size = max(1, len(texts) // (jobs * 8))
     chunks = [(texts[i:i + size], contracts) for i in range(0, len(texts), size)]
     total = accepted = 0
@@ -315,7 +315,7 @@ _CONST_SITES = [
     "extend input In %s", "extend input In %s { x: Int }", "directive @x(a: Int = %v) on FIELD", "directive @x(a: Int %s) on FIELD",
     "query ($a: Int = %v) { f }", "query ($a: Int %s) { f }", "query ($a: Int) %s { f }", "{ f %s }", "{ ...F %s }", "{ ... %s { f } }", "fragment F on T %s { f }",
 ]
-_CONST_VALUES = ["1", "$v", "[$v]", "{k: $v}", "[[{k: [$v]}]]"]
+_CONST_VALUES = ["1", "$v", "[$v]", "{k: $v}", "[[{k: [$v]}]]", "[1, $v]", "{j: 1, k: $v}"]      # (also at a position that is not the first of its list / object)
 # a query (keyword form, nothing that forces the keyword) right after a type-system definition without a body: the printer must not fall back to the
 # short form there
 # text that Unicode normalisation or a line-splitting helper would change: combining sequences, compatibility characters, the separators str.splitlines knows
@@ -331,6 +331,9 @@ HAND_DOCUMENTS += ["{ ...%s } fragment %s on %s { %s }" % (n, n, n, n) for n in 
                   ["enum E { %s }" % n for n in ("t", "tru", "truee", "f", "nul", "nulll", "True", "NULL", "u", "e")] + \
                   ["{ f(x: %s) }" % n for n in ("tru", "nul", "fals", "t", "n", "On")]
 HAND_DOCUMENTS += [t.replace("%s", "@d(a: %s)" % v).replace("%v", v) for t in _CONST_SITES for v in _CONST_VALUES]
+# ... and where the value is not in the FIRST argument of its directive, nor in the first directive of its list (constness must reach every member of a repetition)
+HAND_DOCUMENTS += [t.replace("%s", "@d(z: 1, a: %s)" % v).replace("%v", v) for t in _CONST_SITES if "%s" in t for v in ("2", "$v", "[1, $v]")]
+HAND_DOCUMENTS += [t.replace("%s", "@c(q: 2) @d(a: %s, b: %s)" % (v, v)).replace("%v", v) for t in _CONST_SITES if "%s" in t for v in ("2", "$v")]
 
 
 def pipeline_corpus(tier, seed):
